@@ -8,12 +8,17 @@ AlphaFull  == <<"a", "1", " ", "\n", "\"", "{", "}", "\\", "#", ".", "\r\n", "="
 AlphaLines == <<"a", " ", "\n", "\"", "{">>
 AlphaInd   == <<"a", " ", "\n", "#">>
 AlphaInterp == <<"a", " ", "\"", "{", "}">>
+\* character classes: first / last letters and digits of each range, E (exponent), underscore, point, blank
+AlphaClasses == <<"a", "z", "A", "Z", "E", "_", "0", "9", ".", " ">>
 Alpha == CASE AlphaName = "full" -> AlphaFull [] AlphaName = "lines" -> AlphaLines [] AlphaName = "indent" -> AlphaInd [] AlphaName = "interp" -> AlphaInterp
+           [] AlphaName \in {"classes", "words"} -> AlphaClasses
+\* family "words": every word of the lexer's tables alone, and with a character of each class glued before / behind it
+WordInputs == AllWords \cup UNION { UNION { {<<c>> \o w, w \o <<c>>, w \o <<" ">> \o w} : c \in {"a", "Z", "_", "9", "E"} } : w \in AllWords }
 RECURSIVE Flatten(_, _)
 Flatten(parts, j) == IF j > Len(parts) THEN <<>> ELSE (IF parts[j] = "\r\n" THEN <<"\r", "\n">> ELSE <<parts[j]>>) \o Flatten(parts, j + 1)
 VARIABLE parts
-Init == parts = <<>>
-Next == Len(parts) < N /\ \E j \in 1..Len(Alpha) : parts' = Append(parts, Alpha[j])
+Init == IF AlphaName = "words" THEN parts \in WordInputs ELSE parts = <<>>
+Next == AlphaName # "words" /\ Len(parts) < N /\ \E j \in 1..Len(Alpha) : parts' = Append(parts, Alpha[j])
 GoodInv == Good(Flatten(parts, 1))
 EmitCase == LET r == Lex(Flatten(parts, 1)) IN
         PrintT("@@" \o ToJson([parts |-> parts, err |-> r.err, toks |-> [j \in 1..Len(r.out) |-> [k |-> r.out[j].k, sl |-> r.out[j].sl, sc |-> r.out[j].sc, el |-> r.out[j].el, ec |-> r.out[j].ec]]]))
